@@ -2,6 +2,7 @@ package netsim
 
 import (
 	"fmt"
+	cstypes "github.com/kardiachain/go-kardia/consensus/types"
 	"strings"
 
 	"github.com/kardiachain/go-kardia/consensus"
@@ -63,6 +64,8 @@ type Net struct {
 	Filter func(to, from int, msg consensus.Message) bool
 	// After is called after every primitive (delivery, own-queue drain, timeout).
 	After func()
+	// ReactorGossip: what a node offers another is computed by OffersReactor instead of Offers.
+	ReactorGossip bool
 	// WriteWAL makes the primitives log to the node's WAL like receiveRoutine does.
 	WriteWAL bool
 	// Trace collects a textual log of the schedule (for replay files and evidence samples).
@@ -269,7 +272,16 @@ func hasSameVote(ws *types.VoteSet, v *types.Vote) bool {
 // (VoteSetMaj23 for the receiver's round prevotes/precommits and for the catch-up commit). A vote is offered when the
 // receiver does not hold that same vote; the receiver itself ignores a conflicting vote unless a peer has claimed a
 // majority for its block (the real reactor re-sends such votes after the VoteSetBits exchange).
-func Offers(from, to *Node) []consensus.Message {
+func Offers(from, to *Node) []consensus.Message { return offers(from, to, false) }
+
+// OffersReactor is Offers restricted to the votes the product's gossipVotesRoutine would pick for a peer in the
+// receiver's state (PeerState taken to be up to date): only the receiver's own round - and only while the sender is in
+// that round or a later one - plus the POL round of the proposal the receiver holds; the previous height's commit only
+// while the receiver is in the new-height step. Votes of rounds the receiver has not reached are NOT sent (it gets there
+// through +2/3-any and its own timeouts, round by round).
+func OffersReactor(from, to *Node) []consensus.Message { return offers(from, to, true) }
+
+func offers(from, to *Node, reactorRule bool) []consensus.Message {
 	var out []consensus.Message
 	a, b := from.CS, to.CS
 	if a.Height == b.Height {
@@ -302,8 +314,19 @@ func Offers(from, to *Node) []consensus.Message {
 				}
 			}
 		}
+		polRound := uint32(0)
+		if b.Proposal != nil {
+			polRound = b.Proposal.POLRound
+		}
 		for r := uint32(1); r <= a.Round+1; r++ {
 			for _, typ := range []kproto.SignedMsgType{kproto.PrevoteType, kproto.PrecommitType} {
+				if reactorRule {
+					own := r == b.Round && b.Round <= a.Round && (typ == kproto.PrevoteType || b.Step <= cstypes.RoundStepPrecommitWait)
+					pol := r == polRound && typ == kproto.PrevoteType
+					if !own && !pol {
+						continue
+					}
+				}
 				var vs, ws *types.VoteSet
 				if typ == kproto.PrevoteType {
 					vs, ws = a.Votes.Prevotes(r), b.Votes.Prevotes(r)
@@ -322,7 +345,7 @@ func Offers(from, to *Node) []consensus.Message {
 				}
 			}
 		}
-		if a.LastCommit != nil && b.LastCommit != nil {
+		if a.LastCommit != nil && b.LastCommit != nil && (!reactorRule || b.Step == cstypes.RoundStepNewHeight) {
 			for i := 0; i < a.LastCommit.Size(); i++ {
 				if v := a.LastCommit.GetByIndex(uint32(i)); v != nil && b.LastCommit.GetByIndex(uint32(i)) == nil {
 					out = append(out, &consensus.VoteMessage{Vote: v})
@@ -369,6 +392,11 @@ func Offers(from, to *Node) []consensus.Message {
 	return out
 }
 
+// OffersOf lists what node j offers node i under the network's gossip rule.
+func (n *Net) OffersOf(j, i int) []consensus.Message {
+	return offers(n.Nodes[j], n.Nodes[i], n.ReactorGossip)
+}
+
 // GossipToFixpoint delivers everything every up node in `group` can offer to every other node of the group until
 // nothing changes. Returns false if no fixpoint was reached within the iteration bound.
 func (n *Net) GossipToFixpoint(group []int) bool {
@@ -384,7 +412,7 @@ func (n *Net) GossipToFixpoint(group []int) bool {
 				if i == j || n.down(j) {
 					continue
 				}
-				for _, m := range Offers(n.Nodes[j], n.Nodes[i]) {
+				for _, m := range n.OffersOf(j, i) {
 					n.Deliver(i, j, m)
 				}
 			}
@@ -522,7 +550,7 @@ func (n *Net) DescribeOffers(group []int) string {
 				continue
 			}
 			cnt := map[string]int{}
-			for _, m := range Offers(n.Nodes[j], n.Nodes[i]) {
+			for _, m := range n.OffersOf(j, i) {
 				switch x := m.(type) {
 				case *consensus.VoteMessage:
 					cnt[fmt.Sprintf("vote(%d/%d/%d)", x.Vote.Height, x.Vote.Round, x.Vote.Type)]++
